@@ -214,6 +214,15 @@ def real_cell(cell):
         genfile = os.path.join(s.dir, "gen.txt")
         s.conf_lines = ["raw_env = ['VERIF_GEN=' + open(%r).read().strip()]" % genfile]
         extrafile = os.path.join(s.dir, "extra.txt")
+        if scenario == "raw-env-popped":
+            # a variable the configuration sets and the master's own process has dropped since (a hook scrubbing a secret)
+            open(extrafile, "w").write("secret")
+            s.conf_lines.append("_x = open(%r).read().strip()" % extrafile)
+            s.conf_lines.append("raw_env = raw_env + ['VERIF_EXTRA=' + _x]")
+            s.conf_lines.append("def when_ready(server):\n    import os\n    os.environ.pop('VERIF_EXTRA', None)")
+        if scenario == "wsgi-app-changed":
+            s.app_in_conf = True
+            s.cfg["wsgi_app"] = "app:app"
         if scenario == "raw-env-removed":
             # a variable the configuration sets, changes on the first reload and no longer mentions on the second one
             open(extrafile, "w").write("one")
@@ -283,6 +292,9 @@ def real_cell(cell):
             time.sleep(0.2)
         new_workers = 2
         open(genfile, "w").write("g2")
+        if scenario == "wsgi-app-changed":
+            s.cfg["wsgi_app"] = "app2:app"
+            s.write_conf()
         if scenario == "workers-removed":
             # the setting disappears from the configuration file: the built-in default (1) applies again
             del s.cfg["workers"]
@@ -349,6 +361,8 @@ def real_cell(cell):
                 v = v or ("old-worker-serves-after-reload", "pid %s" % pid)
             if gen != want_gen:
                 v = v or ("old-configuration-after-reload", "reply carries generation %r, expected %r" % (gen, want_gen))
+            if scenario == "wsgi-app-changed" and rp.header(head, "X-App2") != "1":
+                v = v or ("old-application-after-reload", "the configuration file now names another application (wsgi_app); the new workers still serve the old one")
             if scenario == "raw-env-removed" and rp.header(head, "X-Extra") != "<unset>":
                 v = v or ("stale-environment-after-reload", "the configuration no longer sets VERIF_EXTRA (it was 'one', then 'two' after the first "
                           "reload, absent at the second), yet the new workers run with VERIF_EXTRA=%r" % rp.header(head, "X-Extra"))
@@ -357,7 +371,7 @@ def real_cell(cell):
         s.cleanup()
 
 
-SCENARIOS = ("idle", "app-running", "response-partial", "head-partial", "two-hups", "workers-2-3", "workers-removed", "raw-env-removed")
+SCENARIOS = ("idle", "app-running", "response-partial", "head-partial", "two-hups", "workers-2-3", "workers-removed", "raw-env-removed", "raw-env-popped", "wsgi-app-changed")
 
 
 def real_cells(thorough):
